@@ -422,6 +422,8 @@ func checkMain(args []string) int {
 		total.Unknowns += st.Unknowns
 		total.CrossChecked += st.CrossChecked
 		total.CrossDisagree += st.CrossDisagree
+		total.CrossUndecided += st.CrossUndecided
+		total.CrossSkipped += st.CrossSkipped
 		if st.MaxQuerySec > total.MaxQuerySec {
 			total.MaxQuerySec = st.MaxQuerySec
 		}
@@ -609,6 +611,8 @@ func checkMain(args []string) int {
 			"solver_unknowns":               total.Unknowns,
 			"cross_checked_queries":         total.CrossChecked,
 			"cross_disagreements":           total.CrossDisagree,
+			"cross_undecided":               total.CrossUndecided,
+			"cross_not_sampled":             total.CrossSkipped,
 			"ssa_instructions_executed":     total.Steps,
 			"max_assert_term_nodes":         total.MaxTermSize,
 			"functions_encoded":             fnames,
